@@ -405,6 +405,14 @@ def prove [Inhabited M] (fuel : Nat) (cfg : Cfg) (pos : S) : Except Err (Result 
   | .error e => .error e
   | .ok st => .ok (readResult st)
 
+/-- `p.Prove(ctx, pos)` on a `Prover` that may have been used before: all it keeps is its configuration,
+as the earlier calls have rewritten it (`MaxDepth` 0 → `MaxInt16`, and `MaxNodes` halved by *every*
+call when `PN2` is set).  Returns the configuration the call leaves behind. -/
+def proveWith [Inhabited M] (fuel : Nat) (cfg : Cfg) (pos : S) : Except Err (Result M × Stats × Cfg) :=
+  match proveState G attacker fuel cfg pos with
+  | .error e => .error e
+  | .ok st => .ok ((readResult st).1, (readResult st).2, st.cfg)
+
 end
 
 /-! ### the Tak instance -/
@@ -430,5 +438,9 @@ def takGame (basis : Array W) : Game Pos Move where
 /-- `prove.New(cfg).Prove(ctx, pos)`: the attacker of plain PN search is the side to move at the root -/
 def takProve (basis : Array W) (fuel : Nat) (cfg : Cfg) (pos : Pos) : Except Err (Result Move × Stats) :=
   prove (takGame basis) pos.toMove fuel cfg pos
+
+/-- `p.Prove(ctx, pos)` on a `Prover` whose configuration is `cfg` by now -/
+def takProveWith (basis : Array W) (fuel : Nat) (cfg : Cfg) (pos : Pos) : Except Err (Result Move × Stats × Cfg) :=
+  proveWith (takGame basis) pos.toMove fuel cfg pos
 
 end Tak.PN
